@@ -2,7 +2,7 @@
 The extracted specification coq/Spec/Crypto/Iso.v (runner c06) is the independent implementation:
 documents it encrypts are opened by lopdf, documents lopdf encrypts are opened by it, and re-encrypting with
 lopdf's random choices must reproduce lopdf's output byte for byte."""
-import propcheck, vlib
+import propcheck, vlib, pwaid
 from sxg import *
 
 PERM_BITS = [2, 3, 4, 5, 8, 9, 10, 11]
@@ -149,44 +149,6 @@ def gen_perms(rng):
     return sum(1 << b for b in PERM_BITS if rng.random() < 0.5)
 
 
-def gen_pws(rng, limit, r56=False):
-    """(owner, user, wrongs) -- printable ASCII (both password preparations are the identity there);
-    an empty owner password means: no owner password"""
-    def pw(empty=0.2):
-        k = rng.random()
-        if k < empty:
-            return b''
-        if k < 0.65:
-            return rascii(rng, rng.randint(1, 12))
-        if k < 0.85:
-            return rascii(rng, rng.randint(33, 50))
-        return rascii(rng, rng.randint(128, 140))
-    user = pw()
-    k = rng.random()
-    if k < 0.12:
-        owner = user
-    elif k < 0.2 and len(user) >= limit:
-        owner = user[:limit] + rascii(rng, 3)          # same after truncation
-    else:
-        owner = pw(0.25)
-    rights = {user[:limit]}
-    if owner or r56:
-        rights.add(owner[:limit])                       # Algorithm 9 has no "use the user password instead"
-
-    wrongs = []
-    for _ in range(2):
-        w = pw(0.3)
-        if w[:limit] not in rights and w not in wrongs:
-            wrongs.append(w)
-    if user and rng.random() < 0.5:
-        w = user[:-1] + bytes([user[-1] ^ 3]) if len(user) <= limit else bytes([user[0] ^ 3]) + user[1:]
-        if w[:limit] not in rights and all(0x20 < c < 0x7f for c in w):
-            wrongs.append(w)
-    if b'' not in rights and b'' not in wrongs and rng.random() < 0.5:
-        wrongs.append(b'')                              # the empty password must not open it (no-owner case included)
-    return owner, user, wrongs
-
-
 def CFS(pairs):
     return L('cfs', *[L(xb(n), f) for n, f in pairs])
 
@@ -233,10 +195,49 @@ ALL_FEATS = {'metadata', 'xref', 'crypt', 'crypt-noparms', 'dictstr', 'metadata-
 
 
 def plan(tier):
+    # '2b': revision 6 documents whose Algorithm 2.B runs end exactly on (or next to) the boundary of the exit test
     if tier == 'quick':
-        return [('v1', 6), ('v2', 10), ('v4', 22), ('r5', 6), ('v5', 1), ('v4-eff', 1), ('v4-dparr', 3), ('direct', 2), ('len256', 2)]
+        return [('v1', 6), ('v2', 10), ('v4', 22), ('r5', 6), ('v5', 1), ('v4-eff', 1), ('v4-dparr', 3), ('direct', 2), ('len256', 2),
+                ('2b', 3)]
     return [('v1', 150), ('v2', 400), ('v4', 700), ('r5', 200), ('v5', 40), ('v4-eff', 10), ('v4-dparr', 10), ('direct', 20),
-            ('len256', 20)]
+            ('len256', 20), ('2b', 24)]
+
+
+CLASSES_2B = ['eq', 'eq', 'eq', 'below', 'above', 'eq64', 'r64', 'any']
+
+
+def want_2b(rng, j):
+    """the classes wanted of the four hashes (user validation, user key, owner validation, owner key)"""
+    if j == 0:
+        return ['eq'] * 4
+    if j == 1:
+        w = ['below', 'above', 'eq', rng.choice(['below', 'above'])]
+        rng.shuffle(w)
+        return w
+    if j == 2:
+        w = ['eq', 'r64', rng.choice(['above', 'below']), 'eq']
+        rng.shuffle(w)
+        return w
+    return [rng.choice(CLASSES_2B) for _ in range(4)]
+
+
+def run_each(exe, lines, timeout):
+    """every line in a process of its own, all at once (the few lines that cost tens of seconds each)"""
+    import concurrent.futures
+    if not lines:
+        return []
+    with concurrent.futures.ThreadPoolExecutor(min(16, len(lines))) as ex:
+        return [r[0] for r in ex.map(lambda l: vlib.run_lines(exe, [l], timeout=timeout), lines)]
+
+
+def cost_of(line_pws, flags, vkind):
+    """rough cost of a case line in the extracted specification: Algorithm 2.B hashes x bytes per round"""
+    if vkind != 'v5':
+        return 0
+    c = 0 if 'noreenc' in flags else 4 * 150
+    for kind, p, _ in line_pws:
+        c += (3 if kind == 'right' else 2) * (104 + min(len(p), 127))
+    return c
 
 
 def gen_cases(rng, tier):
@@ -244,16 +245,22 @@ def gen_cases(rng, tier):
     runner, _ = vlib.build_runner(SPEC['runner'])
     specs = []
     for kind, n in plan(tier):
-        for _ in range(n):
+        for j in range(n):
             # len256: a V 5 dictionary with the entry Length 256 that Acrobat / qpdf write (fixed in /repo d4c3304: it was
             # refused with InvalidKeyLength); mostly revision 5, whose hash is cheap in the extracted specification
             vkind = rng.choice(['v1', 'v2', 'v4', 'r5']) if kind == 'direct' else \
-                (('v5' if tier != 'quick' and rng.random() < 0.2 else 'r5') if kind == 'len256' else kind)
+                (('v5' if tier != 'quick' and rng.random() < 0.2 else 'r5') if kind == 'len256' else
+                 ('v5' if kind == '2b' else kind))
             mk, limit, cf_names, vfeats = gen_version(rng, vkind)
-            owner, user, wrongs = gen_pws(rng, limit, vkind in ('r5', 'v5'))
-            force = {'v4-eff': 'embedded', 'v4-dparr': 'crypt-array'}.get(kind)
-            doc, feats = gen_doc(rng, cf_names, ALL_FEATS if force is None else set(), force)
-            ver = mk(owner, user)
+            r56 = vkind in ('r5', 'v5')
+            # revision 5 (cheap hash): the first two documents have a user / an owner password of more than 127 bytes in
+            # multi-byte characters; '2b' and the quick tier's revision 6 document: short passwords (a hash of a long one
+            # costs 10 s in the extracted specification)
+            force = ['user-straddle', 'owner-straddle'][j] if kind == 'r5' and j < 2 else \
+                ('short' if kind == '2b' and (tier == 'quick' or rng.random() < 0.7) else None)
+            pwset = pwaid.gen_pw_set(rng, limit, r56, force, maxlen=(50 if vkind == 'v5' and tier == 'quick' else None))
+            sforce = {'v4-eff': 'embedded', 'v4-dparr': 'crypt-array'}.get(kind)
+            doc, feats = gen_doc(rng, cf_names, ALL_FEATS if sforce is None else set(), sforce)
             rnd = [rbytes(rng, 16), rbytes(rng, 16), rbytes(rng, 4)]
             ivs = [rbytes(rng, 16) for _ in range(90)]
             opts = {'v4-eff': [L('eff', xb(b'Other'))], 'direct': ['direct'],
@@ -262,26 +269,69 @@ def gen_cases(rng, tier):
                 vfeats = vfeats | {'direct-encrypt'}
             if kind == 'len256':
                 vfeats = vfeats | {'v5-length-256'}
-            enc_line = L('enc', doc, ver, L('rnd', *[xb(b) for b in rnd]), L('ivs', *[xb(b) for b in ivs]),
-                         *([L('opts', *opts)] if opts else []))
-            specs.append({'kind': kind, 'vkind': vkind, 'doc': doc, 'ver': ver, 'enc': enc_line, 'owner': owner, 'user': user,
-                          'wrongs': wrongs, 'feats': feats | vfeats, 'special': bool(opts) or force is not None})
+            specs.append({'kind': kind, 'vkind': vkind, 'doc': doc, 'mk': mk, 'pwset': pwset, 'rnd': rnd, 'ivs': ivs, 'opts': opts,
+                          'feats': feats | vfeats, 'special': bool(opts) or sforce is not None,
+                          'want2b': want_2b(rng, j) if kind == '2b' else None, 'seed2b': rbytes(rng, 8)})
+    # password preparation: the crate's own, through the harness (an oracle; see pwaid.py)
+    P = pwaid.prepare_texts(impl, [(s['pwset']['r56'], t) for s in specs for t in [s['pwset']['user'], s['pwset']['owner']] + s['pwset']['cands']])
+    for s in specs:
+        f = pwaid.finalize(s['pwset'], P)
+        s['pw'] = f
+        s['feats'] = s['feats'] | f['feats']
+        s['ver'] = s['mk'](f['owner'][1], f['user'][1])           # prepared bytes: what the specification reads
+        s['ver_text'] = s['mk'](f['owner'][0], f['user'][0])      # the texts: what lopdf's API takes
+    # Algorithm 2.B aid: salts for Algorithms 8 / 9 that put the four hashes on the boundary of the exit test
+    aimed = [s for s in specs if s['kind'] == '2b']
+    if impl:
+        res = run_each(impl, [L('find2b', xb(s['pw']['user'][1]), xb(s['pw']['owner'][1]), L('want', *s['want2b']), xb(s['seed2b']))
+                              for s in aimed], 600)
+        for s, r in zip(aimed, res):
+            toks = vlib.split_impl(r)[0].split()
+            if toks and toks[0] == '(found':
+                s['rnd'] = [bytes.fromhex(toks[1][1:]), bytes.fromhex(toks[2][1:]), s['rnd'][2]]
+                s['feats'] = s['feats'] | {'2b-' + h + '-' + c for h, c in zip(['uv', 'uk', 'ov', 'ok'], s['want2b']) if c != 'any'}
+    for s in specs:
+        tail = [L('rnd', *[xb(b) for b in s['rnd']]), L('ivs', *[xb(b) for b in s['ivs']])]
+        s['enc'] = L('enc', s['doc'], s['ver'], *tail, *([L('opts', *s['opts'])] if s['opts'] else []))
+        iopts = s['opts'] + ([L('aim2b', 'any')] if s['kind'] == '2b' else [])
+        s['enc_text'] = L('enc', s['doc'], s['ver_text'], *tail, *([L('opts', *iopts)] if iopts else []))
     if not (impl and runner):
         return [(s['enc'], {'kind': 'enc-' + s['kind'], 'nontrivial': True}) for s in specs]
-    impl_enc = [vlib.split_impl(l)[0] for l in vlib.run_lines(impl, [s['enc'] for s in specs], timeout=900, shards=8)]
-    iso_enc = vlib.run_lines(runner, [s['enc'] for s in specs], timeout=1400, shards=8)
+    impl_raw = [vlib.split_impl(l) for l in vlib.run_lines(impl, [s['enc_text'] for s in specs], timeout=900, shards=8)]
+    impl_enc = [r[0] for r in impl_raw]
+    # the revision 6 documents cost 20-40 s each in the extracted specification (four Algorithm 2.B hashes): each in a
+    # process of its own beside the sharded rest
+    heavy = [i for i, s in enumerate(specs) if s['vkind'] == 'v5']
+    light = [i for i, s in enumerate(specs) if s['vkind'] != 'v5']
+    import concurrent.futures
+    with concurrent.futures.ThreadPoolExecutor(2) as ex:
+        fh = ex.submit(run_each, runner, [specs[i]['enc'] for i in heavy], 1400)
+        fl = ex.submit(vlib.run_lines, runner, [specs[i]['enc'] for i in light], 1400, 8)
+        iso_enc = [None] * len(specs)
+        for i, r in zip(heavy, fh.result()):
+            iso_enc[i] = r
+        for i, r in zip(light, fl.result()):
+            iso_enc[i] = r
     cases = []
-    for s, ie, me in zip(specs, impl_enc, iso_enc):
+    for s, ie, me, iraw in zip(specs, impl_enc, iso_enc, impl_raw):
         if not (ie.startswith('(encdoc ') and me.startswith('(encdoc ')):
             # lopdf refuses the parameters / the specification did not answer: shown as a disagreement of the enc line
-            cases.append((s['enc'], {'kind': 'encfail-' + s['kind'], 'nontrivial': True, 'feats': sorted(s['feats'])}))
+            cases.append((s['enc'], {'kind': 'encfail-' + s['kind'], 'nontrivial': True, 'feats': sorted(s['feats'])}, 0))
             continue
         implenc, isoenc = ie[len('(encdoc '):-1], me[len('(encdoc '):-1]
-        has_owner = bool(s['owner']) or s['vkind'] in ('r5', 'v5')
-        pws = [('right', s['user'])] + ([('right', s['owner'])] if has_owner and s['owner'] != s['user'] else []) \
-            + [('wrong', w) for w in s['wrongs']]
-        tags = {'kind': s['kind'], 'nontrivial': True, 'feats': sorted(s['feats']), 'no_owner': not s['owner']}
-        if s['vkind'] == 'v5':
+        pws = s['pw']['pws']
+        feats = set(s['feats'])
+        if 'aimed=' in iraw[1] and not iraw[1].endswith('aimed=none'):
+            feats.add('2b-lopdf-salts-on-boundary')
+        tags = {'kind': s['kind'], 'nontrivial': True, 'feats': sorted(feats), 'no_owner': not s['pw']['has_owner']}
+        if s['kind'] == '2b':
+            # one line per right password (user: three hashes, owner: two); thorough: also the re-encryption with lopdf's
+            # salts (which the aid chose on the boundary as well) and a wrong password
+            rights = [p for p in pws if p[0] == 'right'][:2]
+            parts = [([p], ['noreenc']) for p in rights]
+            if tier != 'quick':
+                parts += [([], [])] + [([p], ['noreenc']) for p in pws if p[0] == 'wrong'][:1]
+        elif s['vkind'] == 'v5':
             # Algorithm 2.B costs seconds per hash in the extracted specification: one line per piece of work
             parts = [([], [])] + [([p], ['noreenc']) for p in pws[:3]]
         elif s['special']:
@@ -291,9 +341,14 @@ def gen_cases(rng, tier):
         else:
             parts = [(pws, [])]
         for ps, fl in parts:
+            raw = [L('raw', *[xb(t) for _, _, t in ps])] if any(p != t for _, p, t in ps) else []
             cases.append((L('case', s['doc'], s['ver'], isoenc, implenc,
-                            L('pws', *[L(k, xb(p)) for k, p in ps]), L('flags', *fl)), tags))
-    return cases
+                            L('pws', *[L(k, xb(p)) for k, p, _ in ps]), L('flags', *fl), *raw), tags, cost_of(ps, fl, s['vkind'])))
+    # the model runs the lines in 8 processes, line i in process i mod 8: the expensive lines (revision 6) first, so that
+    # they spread -- the eight most expensive one per process, the cheapest of them where the next ones will be added
+    heavy = sorted([c for c in cases if c[2] > 0], key=lambda c: -c[2])
+    heavy = heavy[:8][::-1] + heavy[8:]
+    return [(c[0], c[1]) for c in heavy + [c for c in cases if c[2] == 0]]
 
 
 def classify(line, tags, model_out, impl_out, verdict):
@@ -313,7 +368,17 @@ SPEC = {
             '15/16/17/32/33-byte, binary; streams incl. empty, Metadata, XRef, per-stream Crypt filters with and without DecodeParms; '
             'sparse ids, non-zero generations) x {V1; V2 40..128; V4 with V2/AESV2/None crypt filters; R5; V5(R6)} x StmF/StrF '
             'chosen among the CF names and the predefined Identity x EncryptMetadata x conforming permission words x passwords '
-            '(empty user, no owner, short, >32, >127, owner = user, equal after truncation) + wrong passwords incl. the empty one; '
+            '(Unicode texts: ASCII, Latin-1 and the specials of PDFDocEncoding for revisions 2-4; Cyrillic, kana, CJK extension B, '
+            'Latin-1 and texts SASLprep changes for revisions 5-6; empty user, no owner, short, >32, >127 bytes incl. 128..200 '
+            'bytes of multi-byte characters with the 127-byte cut inside a character (two revision 5 documents of every run by '
+            'construction), owner = user, equal after truncation) + further right passwords (differing beyond the cut only) '
+            'and wrong ones (differing in the last character that counts; the empty one); the texts go to lopdf, the bytes the '
+            'crate\'s own preparation makes of them (harness line `prep`) are the passwords of the specification side; '
+            '3 (thorough 24) revision 6 documents whose salts a search with the sha2/aes crates chose so that the Algorithm 2.B '
+            'runs of the user validation / user key / owner validation / owner key hash end exactly on the boundary of the '
+            'exit test (last byte = round - 32), one below it, after a round just above it, in the 64th round -- in the '
+            'document the specification encrypts (explicit salts) and in the one lopdf encrypts (re-drawn until a hash is on '
+            'the boundary); '
             'each document is encrypted by the extracted ISO specification (explicit randomness) and by lopdf; lopdf opens the '
             'former, the specification the latter, with every password; the specification re-encrypts with the random choices '
             'read back from lopdf\'s output and must reproduce it byte for byte (O, U, OE, UE, Perms, P, V, R, Length, CF, StmF, '
@@ -321,9 +386,14 @@ SPEC = {
     'extra_trusted': ['C06: Gallina MD5 / SHA-256/384/512 / AES-128/256 / RC4 (RFC 1321, FIPS 180-4, FIPS 197, RFC 6229, SP 800-38A '
                       'vectors as Examples) are the primitives of the specification; their correctness is by vectors and by the '
                       'differential runs against the md-5, sha2, aes crates, not by proof',
-                      'C06: password preparation (PDFDocEncoding / SASLprep) is an oracle; the cases use printable-ASCII passwords'],
+                      'C06: password preparation (PDFDocEncoding / SASLprep) is an oracle: the harness prepares the Unicode texts with '
+                      'the crate\'s own preparation and hands the prepared bytes to the specification side (for revisions 5-6 the '
+                      'result is compared with the stringprep crate\'s saslprep)',
+                      'C06: the Algorithm 2.B boundary search (harness/src/pwaid.rs, sha2 + aes crates) only chooses inputs; it is not '
+                      'part of any verdict'],
     'partial_note': 'MD5/SHA-2/RC4 correctness by published vectors + differential runs, not by proof (the laws the theorems use -- '
-                    'AES inverse, MD5 and SHA-2 output sizes -- are proved); password preparation is an oracle',
+                    'AES inverse, MD5 and SHA-2 output sizes -- are proved); password preparation is an oracle (the prepared bytes of '
+                    'non-ASCII texts are taken from the crate)',
     'impl_timeout': 1200,
     'model_timeout': 1500,
     'model_shards': 8,      # vlib shards only when there are >= 4 lines per shard
@@ -352,8 +422,8 @@ MANIFEST = {
     'level_note': 'Partial: MD5, SHA-2, RC4 against their standards by published vectors and differential runs, not by proof (AES '
                   'decryption inverting encryption, the MD5 and the SHA-2 output sizes ARE proved for the Gallina instances, so the '
                   'document theorems hold for them with no hypothesis on the primitives); an owner (R2-4) / user (R5/6) password that also passes the other '
-                  'check is excluded (cryptographic); password preparation (PDFDocEncoding/SASLprep) is an oracle (ASCII '
-                  'passwords). No open known finding (EFF, DecodeParms arrays, direct encryption dictionary, Length 256 on V 5 fixed in /repo). '
+                  'check is excluded (cryptographic); password preparation (PDFDocEncoding/SASLprep) is an oracle (the '
+                  'specification side gets the bytes the crate prepares from the Unicode texts). No open known finding (EFF, DecodeParms arrays, direct encryption dictionary, Length 256 on V 5 fixed in /repo). '
                   'Trusted: Coq kernel, translator part Crypto, extraction. No axioms.',
     'technique': 'Coq refinement proofs model-vs-standard + extracted specification as independent implementation in a two-way '
                  'differential check + direct property evaluation on the crate',
